@@ -126,6 +126,26 @@ def run(ctx: Ctx) -> None:
     lyr = root["layers"][0]
     ctx.check(o.kind == "return" and "__comments__" in lyr and "type" in lyr["__comments__"], "W5", "add_comments stores the message next to the keyword", lcm, "", "the validation comment is not stored in the enclosing object's __comments__")
 
+    # ---- W7 every fault gets its message ---------------------------------------------------------------
+    ctx.rule("W7", "get_error_messages builds a message for every error location: each faulty object of a list, each faulty keyword, in the order jsonschema reports them (errors on several items of one list-valued keyword may share a message)", 1)
+    seen_paths: list = []
+
+    def cm(I_, self_obj, args, kwargs):
+        seen_paths.append(list(args[1]))
+        return HDict({"message": "m", "path": tuple(args[1])})
+
+    I7 = e.interp(stubs={"validator.Validator.create_message": cm}, allow_fork=False)
+    paths = [["layers", 0], ["layers", 1], ["name"], ["layers", 0, "classes", 0], ["layers", 0, "classes", 1], ["size", 0], ["size", 1], ["layers", 1, "name"], []]
+    errs = [SObj("ValidationError", {"absolute_path": list(p_), "message": SStr.atom("e")}) for p_ in paths]
+    outs = I7.explore("validator.Validator.get_error_messages", lambda: (V(), [HDict({"__type__": "map"}), list(errs), False], {}))
+    got_paths = [tuple(p_) for p_ in seen_paths]
+    required = [tuple(p_) for p_ in paths if p_[:1] != ["size"]]
+    missing = [p_ for p_ in required if p_ not in got_paths]
+    size_ok = any(p_[:1] == ("size",) for p_ in got_paths)
+    in_order = [p_ for p_ in got_paths if p_ in required] == required
+    n_ret = len(outs[0].value) if outs and outs[0].kind == "return" and isinstance(outs[0].value, list) else -1
+    ctx.check(not missing and size_ok and in_order and n_ret == len(got_paths), "W7", "one message per error location", repo.loc("validator", repo.func("validator.Validator.get_error_messages")), f"{len(got_paths)} messages for {len(paths)} errors", f"errors at {missing} get no message (messages built for {got_paths}); returned {n_ret}")
+
     # ---- W6 --------------------------------------------------------------------------------------------
     ctx.rule("W6", "_get_errors validates convert_lowercase(d) (through a JSON round trip) and builds messages against the original dictionary", 1)
     rec = {}
